@@ -19,11 +19,12 @@ func init() {
 		ID: "C02",
 		Rule: "rapid histories of the world machine weighted to share-moving operations (3+ co-delegators, slashes to reach rates != 1), plus function-level generation of the share<->token conversions; " +
 			"non-trivial = a delegate/undelegate touched a pool that has other delegators and an exchange rate != 1; distinct = hash of the (kind, outcome) sequence",
-		Gen:        GenOpts{Weights: w, HostilePct: 5, ExtremePct: 2, MaxDt: 30},
+		Gen:        GenOpts{Weights: w, HostilePct: 5, ExtremePct: 0, MaxDt: 30, Anchor: true, Tempos: []int{4, 12, 40}, CapBits: 90},
 		MinSteps:   20,
 		MaxSteps:   70,
 		Config:     worldConfig,
 		Invariants: func() []Invariant { return []Invariant{&sharesInv{}} },
+		Tail:       shortDrain,
 		NonTrivial: func(m *Machine, invs []Invariant) (bool, []string) {
 			s := invs[0].(*sharesInv)
 			m.Labels["fairness-checks"] += s.fairnessChecks
